@@ -41,10 +41,6 @@ Proof.
     + reflexivity.
 Qed.
 
-Lemma bcmp_take_more a b m :
-  m = N.min (nlen a) (nlen b) -> bcmp (take m a) (take m b) = bcmp (take m a) (take m b).
-Proof. reflexivity. Qed.
-
 Lemma list_eqb_eq a b : list_eqb a b = true <-> a = b.
 Proof.
   revert b. induction a as [|x a IH]; intros [|y b]; cbn [list_eqb]; split; intros H;
